@@ -359,6 +359,9 @@ def main(argv):
     if acc.harness_errors:
         inconclusive.extend("harness: " + e[-600:] for e in acc.harness_errors)
     mins = mod.minimums(tier) if hasattr(mod, "minimums") else {}
+    only_suite = os.environ.get("CV_ONLY_SUITE") == "1" and prop in suiterun.EVALS
+    if only_suite:  # development aid: the driver's own workload did not run, its minimum counters do not apply
+        mins = {}
     if acc.evaluations < mins.get("evaluations", 1):
         inconclusive.append(
             f"only {acc.evaluations} evaluations (< {mins.get('evaluations', 1)})"
@@ -381,7 +384,7 @@ def main(argv):
     missing_reach = [
         r for r in getattr(mod, "REACH", []) if not any(x.endswith(r) for x in reached)
     ]
-    if missing_reach:
+    if missing_reach and not only_suite:
         inconclusive.append("anchored mechanisms never reached: " + ", ".join(missing_reach))
 
     # ---- evidence ------------------------------------------------------------
